@@ -388,6 +388,36 @@ class Run:
                            replay_result=ob.replay_result), open(ob.replay_path, 'w'), indent=1)
         return ob.replay_result
 
+    # ---- model / implementation concordance
+    def concord(self, cases, jobs=8):
+        """cases: [(Ob, assignments)].  The same harness is compiled natively against the REAL build and run on concrete inputs: the
+        CHECKs that the solver discharged on the generated C must also pass on the real code (validates environment models and the
+        translator on this unit; a failure is a concrete, replayable violation on the real build)."""
+        only = os.environ.get('VERIF_ONLY')
+        if only:
+            cases = [(o, a) for o, a in cases if re.search(only, o.name)]
+        def one(c):
+            ob, asg = c
+            try:
+                res = self.replay_native(ob, assignments=asg, keep=True)
+            except BrokenCheck as e:
+                ob.status, ob.detail = 'ERROR', 'concordance run failed: %s' % e
+                return
+            if res.startswith('REPRODUCED'):
+                ob.status, ob.failed_props, ob.trace_inputs = 'CEX', [('real-build', res)], asg
+            elif res.startswith('NOT-REPRODUCED ('):
+                ob.status, ob.detail = 'ERROR', 'concordance case violates a harness assumption: %s' % asg
+            else:
+                ob.status = 'HOLD'
+                self.tv_results.append(dict(unit='real build', case=ob.name, inputs_agreeing=1))
+        for c in cases[:1]:
+            one(c)
+        with ThreadPoolExecutor(jobs) as ex:
+            list(ex.map(one, cases[1:]))
+        for ob, asg in cases:
+            if ob.status != 'HOLD':
+                self.obs.append(ob)
+
     # ---- translation validation
     def tv(self, u, driver, extra_env=('env_heap.c', 'env_cxx.c', 'env_io.c', 'env_native_tv.c'), n_random=2000):
         """Compile generated C (prefix c_) natively, link with the g++ build of the real sources and the driver,
